@@ -54,7 +54,7 @@ def width(t):
         return t[2]
     if h in ("op", "sh"):
         return t[2]
-    if h in ("cmp", "not", "land", "lor"):
+    if h in ("cmp", "not", "land", "lor", "exists", "inbounds"):
         return 1
     if h == "ite":
         return width(t[2])
@@ -278,6 +278,8 @@ def shift(name, w, x, n):
         c = a[2][2]
         if c == 0:
             return x
+        if name == "shl" and x[0] == "sext" and c >= w - width(x[2]):
+            x = zext(w, x[2])      # the extension bits are shifted out
         if is_k(x):
             if name == "shl":
                 return K(w, x[2] << c)
@@ -431,4 +433,8 @@ def show(t):
         return "%s(%s)" % (t[1], ", ".join(show(a) for a in t[2]))
     if h == "opaque":
         return "?<%s>" % (t[1],)
+    if h == "exists":
+        return "exists %s: %s" % (t[1], show(t[2]))
+    if h == "inbounds":
+        return "inbounds(%s, %s)" % (show(t[1]), t[2])
     return repr(t)
